@@ -16,8 +16,10 @@
 (3) witness search: an independent Python statement of the property (vinestruct.py_validate, own Kruskal) on every
     implementation output of (i) and (ii).
 """
+import contextlib
 import hashlib
 import itertools
+import signal
 
 import numpy as np
 
@@ -448,7 +450,10 @@ def _run(ctx):
     bstatus = vinebuildgen.generate(ctx, kstatus)
     vinebuildgen.record(ctx, bstatus)
     ctx.copy_src('Props/C16_build.v')
-    ctx.compile(['Gen_vinebuild.v', 'C16_build.v'])
+    # the Prim loops of RegularTree (tools/vf/vineregulargen.py: the translators `gen_regular_first` / `gen_regular_kth` of vinebuildgen.TRANSLATORS,
+    # recorded above) and, with them, the generated dispatch / Tree.fit / train_vine / VineCopula.fit for all three vine types: C16_regular.v
+    ctx.copy_src('Props/C16_regular.v')
+    ctx.compile(['Gen_vinebuild.v', 'C16_build.v', 'C16_regular.v'])
     ctx.rule('unit level: real VineCopula.train_vine + Tree.fit + CenterTree/DirectTree/RegularTree with synthetic tau matrices per level '
              '(select_copula, get_tau_matrix, prepare_next_tree stubbed): every strict ordering of the pairwise |tau| ranks for d = 2,3,4 '
              '(40 sampled orderings of the 720 for d = 4 in the quick tier) with random signs, and boundary-biased random matrices for d = 2..7 '
@@ -474,11 +479,30 @@ def _run(ctx):
                     "tie-breaking that sorts row 0 last)",
                     'the harness instruments copulas.multivariate.tree by monkeypatching (Tree.fit, _sort_tau_by_y, _check_constraint, sorted, np.empty, select_copula), restored afterwards',
                     'tree construction (_sort_tau_by_y, get_anchor, Center/Direct builders, get_tree, Tree.fit, train_vine, VineCopula.fit slice) generated from the AST by tools/vf/vinebuildgen.py and '
-                    'proved equal to Model.Vine in Props/C16_build.v; trusted: the translator and the numpy denotations of coq/Lib/PyMat.v; RegularTree builders are not generated (docs/vinebuild_section.md)']
+                    'proved equal to Model.Vine in Props/C16_build.v; trusted: the translator and the numpy denotations of coq/Lib/PyMat.v',
+                    'the Prim loops of RegularTree (_build_first_tree / _build_kth_tree) generated from the AST by tools/vf/vineregulargen.py and proved equal to Model.Vine '
+                    '(prim_loop / cands / regular_first_run / regular_kth_fuel) in Props/C16_regular.v under sel_in, sel_some, perm_fun (stated in the theorems); trusted: the '
+                    'translator and the denotations of coq/Lib/PyPrim.v (insertion-ordered sets, sorted(..)[0] = sel . order, list(unvisited)[0] = the least element, '
+                    'while = recursion on fuel n_nodes); docs/vineregular_section.md']
     ctx.assumptions += ['tau entries are finite floats or NaN (exact rationals in the model); level-1 tau has no entry <= -10 (true of any Kendall tau) for the D-vine path theorem',
                         'proximity of regular vines beyond tree 3 and "no pair conditioned twice" for regular vines are not proved in general: checked per run by valid_vine',
                         'statistical content (which family is selected, quality of theta) is C10/C11; here only: the edge stores what select_copula returned and theta passes check_theta',
                         'the k-th tree (k >= 2) of a regular vine is NOT claimed to be a maximum spanning tree (get_tau_matrix writes tau of edge i alone into row i, F8)']
+
+
+@contextlib.contextmanager
+def _cpu_watchdog(seconds):
+    """the oracles below fit the REAL classes without the capture harness (no spin guard): a library whose Prim loop does not terminate must
+    not hang the check.  CPU time of this process (ITIMER_VIRTUAL: independent of the SIGALRM timers the oracles use), re-armed every 5 s"""
+    def fire(sig, frm):
+        raise TimeoutError(f'the oracles on the real classes used more than {seconds} s of CPU time (a fit that does not terminate?)')
+    old = signal.signal(signal.SIGVTALRM, fire)
+    signal.setitimer(signal.ITIMER_VIRTUAL, seconds, 5)
+    try:
+        yield
+    finally:
+        signal.setitimer(signal.ITIMER_VIRTUAL, 0)
+        signal.signal(signal.SIGVTALRM, old)
 
 
 def run(ctx):
@@ -488,6 +512,7 @@ def run(ctx):
         _run(ctx)
     finally:
         try:
+          with _cpu_watchdog(300):
             extra_oracles.vine_history(ctx, ('structure',))
             from .. import extra_oracles2
             extra_oracles2.vine_api(ctx, ('positional-seed', 'duplicated-rows'))
